@@ -3,12 +3,12 @@
 SPEC = dict(
     harness=['h_fuzzy.c', 'h_fuzzy_ext.c'],
     # the default (double) build runs the full harness; the other two real widths run a compact type-generic companion
-    configs=lambda tier: [dict(name='f64'), dict(name='f64-clang', libcc='clang', nworkers=4, of=8), dict(name='f32', real=4, harness=['h_fuzzy_w.c']), dict(name='f80', real=16, harness=['h_fuzzy_w.c']),
+    configs=lambda tier: [dict(name='f64'), dict(name='f64-clang', libcc='clang', nworkers=4, of=8), dict(name='f64-o2', libflavour='san-o2', libdrop=['-fno-strict-aliasing'], nworkers=4, of=8), dict(name='f32', real=4, harness=['h_fuzzy_w.c']), dict(name='f80', real=16, harness=['h_fuzzy_w.c']),
                           dict(name='cxx', harness=['h_cxxw.c', 'h_cxxw_shim.cc'], hflags=['-DVF_CXXW=13'], nworkers=4),
                           # the scratch-buffer clause alone, on scratch blocks that start off an a_real boundary: the unchanged library then stores
                           # a_real values at unaligned addresses, which UBSan's alignment check (not part of the property) would report
                           dict(name='unaligned-scratch', cflags=['-fno-sanitize=alignment'], hflags=['-DVF_UNALIGNED_SCRATCH'], nworkers=2)],
-    parallel_configs=6,
+    parallel_configs=7,
     level='exploration',
     rule='three monitor groups. MF: for each of the 13 a_mf_* families, parameter tuples are drawn per degeneracy class (all '
          'equal-neighbour patterns a=b, b=c, c=d, ... of the piecewise-linear families, flanks a few ulps wide, c1=c2, slope-sign '
